@@ -817,8 +817,34 @@ def r4(ctx: Ctx) -> None:
         vals = sorted(v for t in tup for v in str_consts(ctx, rv, t.comparators[0]))
         dv = ctx.prog.const_str(d, rv.module, rv) if d is not None else None
         ok = dv is not None and dv.strip().lower() in vals
-    ctx.ob("C14.R4", rv, "verification defaults to ON", env[0] if env else None, ok,
-           "the environment default is one of the values accepted as true")
+    # scenario evaluation (nothing is run): with no explicit argument, what does the resolver answer for an unset variable and for
+    # each spelling of "on" the documentation promises?
+    from .common import concrete_eval, explore, UNKNOWN
+    vpar = next((p_.name for p_ in rv.params if p_.name not in ("self", "cls")), None)
+    decided = {}
+    for label, val in (("unset", None), ("'true'", "true"), ("'1'", "1"), ("'yes'", "yes"), ("'on'", "on"), ("' ON '", " ON "),
+                       ("'0'", "0"), ("'false'", "false"), ("'off'", "off")):
+        scen = {"os.getenv()": val}
+        if vpar:
+            scen[vpar] = None
+        outs = set()
+        for nid, store, _asm in explore(ctx, rv, [g.entry], scen, stop=[n.id for n in g.nodes if n.kind == "return"]):
+            n_ = g.nodes[nid]
+            if n_.kind == "return" and n_.ast is not None:
+                sc2 = dict(scen)
+                sc2.update({k: v for k, v in store.items() if isinstance(k, str) or (isinstance(k, tuple) and k[0] == "ret")})  # type: ignore[misc]
+                outs.add(concrete_eval(ctx, rv, n_.ast.value, sc2, nid))  # type: ignore[union-attr]
+        decided[label] = next(iter(outs)) if len(outs) == 1 and isinstance(next(iter(outs)), bool) else None
+    if all(v is not None for v in decided.values()):
+        want = {"unset": True, "'true'": True, "'1'": True, "'yes'": True, "'on'": True, "' ON '": True, "'0'": False, "'false'": False, "'off'": False}
+        wrong = {k: v for k, v in decided.items() if bool(v) != want[k]}
+        ok = not wrong
+        ctx.ob("C14.R4", rv, "verification defaults to ON", env[0] if env else None, ok,
+               "DATASHARD_VERIFY_CHECKSUMS unset / true / 1 / yes / on (any case, padded) -> ON; 0 / false / off -> OFF"
+               + (f"; but {wrong}: a deployment that switches verification ON reads altered bytes unverified" if wrong else ""))
+    else:
+        ctx.ob("C14.R4", rv, "verification defaults to ON", env[0] if env else None, ok,
+               "the environment default is one of the values accepted as true")
 
 
 def r5(ctx: Ctx) -> None:
